@@ -2,11 +2,13 @@ module verif/harness
 
 go 1.24.9
 
-require github.com/parquet-go/parquet-go v0.0.0
+require (
+	github.com/google/uuid v1.6.0
+	github.com/parquet-go/parquet-go v0.0.0
+)
 
 require (
 	github.com/andybalholm/brotli v1.1.1 // indirect
-	github.com/google/uuid v1.6.0 // indirect
 	github.com/klauspost/compress v1.17.9 // indirect
 	github.com/parquet-go/bitpack v1.0.3 // indirect
 	github.com/parquet-go/jsonlite v1.5.5 // indirect
